@@ -191,6 +191,29 @@ class Harness:
             exc = e
         finally:
             try:
+                # nothing may be left to the garbage collector: a suspended coroutine closed later, inside another case, would run its
+                # `finally` blocks there (see VThread.reap in simactor). Cancel what is left (budget hit; orphaned composite streams).
+                try:
+                    asyncio.events._set_running_loop(loop)
+                    for _ in range(50):
+                        pending = [t for t in asyncio.all_tasks(loop) if not t.done()]
+                        if not pending:
+                            break
+                        for t in pending:
+                            t.cancel()
+                        n = 0
+                        while loop._ready and n < 10000:
+                            loop._run_once()
+                            n += 1
+                        if not loop._ready:
+                            for hnd in list(loop._scheduled):
+                                if not hnd._cancelled:
+                                    hnd.cancel()
+                                    loop._ready.append(asyncio.Handle(hnd._callback, hnd._args, loop, hnd._context))
+                except BaseException:  # noqa - teardown only
+                    pass
+                finally:
+                    asyncio.events._set_running_loop(None)
                 loop.close()
             finally:
                 asyncio.set_event_loop(None)
